@@ -39,9 +39,15 @@ def compare(case, out):
                 continue
             _stats["ray_casting_problems"] += 1
             n = max(1, w["n_origins"])
-            if abs(h["f"] - fd) > 1.0 / n + 1e-6:          # one sample point of slack (grazing rays)
-                res.append((CORRESPONDENCES[1], f"window {w['window']} hour {h['hour']}: impl f={h['f']}, exact {fd}"))
-            elif abs(h["f"] - fd) > 1e-6:
+            # fd = [exact fraction, lowest, highest]: the bracket leaves out of the count the sample points whose ray meets an
+            # obstacle within 0.5 mm of its own origin (an obstacle lying in the window's plane), within 2 mm of the obstacle's
+            # outline, or nearly parallel to it — there the f32 computation may fall either way
+            exact, lo, hi = fd if isinstance(fd, list) else (fd, fd, fd)
+            if lo < hi:
+                _stats["hours_with_unsure_points"] += 1
+            if not (lo - 1.0 / n - 1e-6 <= h["f"] <= hi + 1.0 / n + 1e-6):          # one sample point of slack (grazing rays)
+                res.append((CORRESPONDENCES[1], f"window {w['window']} hour {h['hour']}: impl f={h['f']}, exact {exact} (firm bracket [{lo}, {hi}])"))
+            elif abs(h["f"] - exact) > 1e-6:
                 _stats["one_ray_off"] += 1
     return res[:4]
 
